@@ -9,3 +9,12 @@ package atom
 func VerifUseFlagName(d UseDependency) string {
 	return useFlagIndexToNames[d.UseFlag]
 }
+
+// VerifUseDependencyList expands the interned USE-dependency indices of an atom.
+func VerifUseDependencyList(ud UseDependencies) []UseDependency {
+	out := make([]UseDependency, len(ud))
+	for i, ix := range ud {
+		out[i] = useDependencyList[ix]
+	}
+	return out
+}
